@@ -157,7 +157,7 @@ def abs_apply(a, st):
         return a.clone(n=None, indexable=False, findexable=False, sized=False,
                        keys=False)
     if op == 'prefetch':
-        pool = not (st['w'] == 1 and st.get('backend', 't') == 't')
+        pool = is_pool(st)
         if st['b'] < st['w'] or st['b'] < 1:
             return None
         if pool and not (a.sized and a.findexable):
@@ -187,7 +187,10 @@ def abs_eval(desc):
 def is_pool(st):
     if st['op'] == 'parmap':
         return True
-    return not (st['w'] == 1 and st.get('backend', 't') == 't')
+    # backend='thread' is the documented alias of 't' in lazy_parallel_map; with
+    # one worker it selects the pool path (only the exact spelling 't' takes the
+    # single-thread fallback)
+    return not (st['w'] == 1 and st.get('backend', 't') == 't' and not st.get('alias'))
 
 
 # ------------------------------------------------------------- generation
@@ -249,6 +252,21 @@ def gen_upstream_stage(rng, a, sid, single_path):
     raise ValueError(op)
 
 
+def _spelling(rng, st):
+    """Legal spellings of the same configuration: the alias 'thread', a float
+    or numpy buffer size, a fractional buffer size (b - 0.5 holds b examples:
+    the code compares `qsize() >= buffer_size`), numpy worker counts."""
+    if st.get('backend') == 't' and st['w'] >= 2 and rng.random() < 0.1:
+        st['alias'] = True
+    r = rng.random()
+    if r < 0.06:
+        st['num'] = 'float'
+    elif r < 0.12 and st['b'] > st['w']:
+        st['num'] = 'half'
+    elif r < 0.18:
+        st['num'] = 'np'
+
+
 def gen_par_stage(rng, *, kinds=('prefetch', 'parmap'), backends=('t',),
                   max_w=3, max_extra_b=3, catch_p=0.0, single_p=0.35):
     kind = rng.choice(list(kinds))
@@ -259,18 +277,26 @@ def gen_par_stage(rng, *, kinds=('prefetch', 'parmap'), backends=('t',),
               'backend': rng.choice(list(backends))}
         if st['backend'] == 'False':
             st['backend'] = False
+        _spelling(rng, st)
         return st
+    alias1 = False
     if rng.random() < single_p:
         w, backend = 1, 't'
     else:
         w = rng.randrange(1, max_w + 1)
         backend = rng.choice(list(backends))
         if w == 1 and backend == 't':
-            w = 2
+            if rng.random() < 0.5:
+                w = 2
+            else:
+                alias1 = True
     b = w + rng.randrange(0, max_extra_b + 1)
     if backend == 'False':
         backend = False
     st = {'op': 'prefetch', 'w': w, 'b': b, 'backend': backend}
+    if alias1:
+        st['alias'] = True
+    _spelling(rng, st)
     # catch_filter_exception ships a local closure to the workers: the
     # pickle-based pools refuse it loudly (cannot pickle), so it is only
     # generated for backends that can serialise closures.
